@@ -9,5 +9,8 @@ CONSTANTS
   WriterFollowsOwnSCS = TRUE
   HsOrder = "serial"
   HsReadExact = TRUE
-INVARIANTS NoDesync Emit
+  ScsSids = {0}
+  ReaderScsAnySid = TRUE
+  LazyFlushTypes = {}
+INVARIANTS NoDesync PrefixOk InFollowsOut AllDelivered Flushed Emit
 CHECK_DEADLOCK FALSE
